@@ -146,7 +146,19 @@ def gen_base(seed, pool=False, sizes="full"):
     if backup and rng.random() < 0.2:
         # a stale backup from an earlier run: --backup must still leave a copy of *this* original
         t = rng.choice(targets)
-        sandbox.append(workload.sb_entry(t + ".bak", b"-- stale backup of an older version\n", rng.choice(["644", "444"])))
+        if rng.random() < 0.5:
+            sandbox.append(workload.sb_entry(t + ".bak", b"-- stale backup of an older version\n", rng.choice(["644", "444"])))
+        else:
+            # ... of the same size and with the same timestamp as the current revision (coarse or
+            # clamped mtimes): only the content tells them apart
+            cur = [f for f in sandbox if f["path"] == t][0]
+            data = bytearray(workload.sb_bytes(cur))
+            if data:
+                i = rng.randrange(len(data))
+                data[i] = 0x20 if data[i] != 0x20 else 0x09
+                e = workload.sb_entry(t + ".bak", bytes(data), cur["mode"])
+                e["mtime_ns"] = cur["mtime_ns"] = 1_600_000_000_000_000_000
+                sandbox.append(e)
     if not dupfocus:
         rng.shuffle(names)
     argv += ["-f"] + names
